@@ -73,3 +73,31 @@ def bounds(problem):
 def declared(problem):
     ko = problem.knownOptimum[0]
     return np.array(ko.point.floatVariables, dtype=float), float(ko.functionValues[0].value)
+
+
+def use_instance(p, variant):
+    """A user works with the instance the way the shipped examples do, output swallowed.  variant % 4:
+    0 - a few iterations, then the box of the solver's own evolvent (public attribute, public SetBounds) is narrowed, more iterations;
+    1 - Solve with a ConsoleFullOutputListener attached (the final report reads the known optimum);
+    2 - Solve with refineSolution=True on a small budget (the local phase is given the problem's bounds);
+    3 - both.
+    Returns a short description."""
+    import contextlib
+    import io
+    from iOpt.solver import Solver
+    from iOpt.solver_parametrs import SolverParameters
+    from iOpt.method.listener import ConsoleFullOutputListener
+    lo, hi = bounds(p)
+    v = variant % 4
+    with contextlib.redirect_stdout(io.StringIO()):
+        if v == 0:
+            s = Solver(p, SolverParameters(eps=0.05, r=3.0, itersLimit=12, evolventDensity=6))
+            s.DoGlobalIteration(4)
+            s.evolvent.SetBounds(np.array(lo + 0.1 * (hi - lo), dtype=np.double), np.array(hi - 0.2 * (hi - lo), dtype=np.double))
+            s.DoGlobalIteration(3)
+            return "iterations + SetBounds on Solver.evolvent"
+        s = Solver(p, SolverParameters(eps=0.02, r=2.0, itersLimit=[0, 14, 8, 11][v] + (variant // 4) % 5, evolventDensity=6, refineSolution=v >= 2))
+        if v in (1, 3):
+            s.AddListener(ConsoleFullOutputListener(mode=["full", "result", "custom"][(variant // 4) % 3]))
+        s.Solve()
+    return ["", "Solve with a console listener", "Solve with refinement", "Solve with refinement and a console listener"][v]
